@@ -88,7 +88,11 @@ func genScan(rng *rand.Rand, tier string, emit func(string)) {
 				}
 				emit(fmt.Sprintf("adv %s %s %d %d", T, hexs([]byte(tab+":"+start)), cnt, rev))
 			} else {
-				emit(fmt.Sprintf("full %s %s %s %d %d", T, hexs([]byte(tab)), hexs([]byte(start)), cnt, rev))
+				if rng.Intn(4) == 0 {
+					emit(fmt.Sprintf("fullm %s %s %s %d %d %s", T, hexs([]byte(tab)), hexs([]byte(start)), cnt, rev, hexs([]byte([]string{"a", "m", "ab", "z", "a0"}[rng.Intn(5)]))))
+				} else {
+					emit(fmt.Sprintf("full %s %s %s %d %d", T, hexs([]byte(tab)), hexs([]byte(start)), cnt, rev))
+				}
 			}
 		}
 		for q := 0; q < 10 && len(collKeys) > 0; q++ {
@@ -111,7 +115,11 @@ func genScan(rng *rand.Rand, tier string, emit func(string)) {
 					cnt = -1 - rng.Intn(3) // refused as well
 				}
 			}
-			emit(fmt.Sprintf("%s %s %s %d %d", op, ck, hexs([]byte(start)), cnt, rev))
+			if op == "cfull" && rng.Intn(4) == 0 {
+				emit(fmt.Sprintf("cfullm %s %s %d %d %s", ck, hexs([]byte(start)), cnt, rev, hexs([]byte([]string{"a", "m", "ab", "z", "a0", "b"}[rng.Intn(6)]))))
+			} else {
+				emit(fmt.Sprintf("%s %s %s %d %d", op, ck, hexs([]byte(start)), cnt, rev))
+			}
 		}
 	}
 }
@@ -135,6 +143,7 @@ func newScan(c *Ctx) func(string) string {
 			n = nil
 		}
 	}
+	match := "" // MATCH pattern of the running fullm / cfullm loop ("" = none)
 	advPage := func(T string, cursor []byte, count int, rev bool) ([][]byte, []byte, string) {
 		name := "advscan"
 		if rev {
@@ -145,6 +154,9 @@ func newScan(c *Ctx) func(string) string {
 			return nil, nil, "err:nohandler"
 		}
 		args := [][]byte{[]byte(name), append([]byte(dataNS+":"), cursor...), []byte(T), []byte("count"), []byte(strconv.Itoa(count))}
+		if match != "" {
+			args = append(args, []byte("match"), []byte(match))
+		}
 		r, err := h(redcon.Command{Args: args})
 		if err != nil {
 			return nil, nil, "err:" + errClass(err.Error())
@@ -160,7 +172,11 @@ func newScan(c *Ctx) func(string) string {
 		if rev {
 			name = map[string]string{"h": "hrevscan", "s": "srevscan", "z": "zrevscan"}[kind]
 		}
-		vs := n.read([][]byte{[]byte(name), append([]byte(dataNS+":"), raw...), cursor, []byte("count"), []byte(strconv.Itoa(count))})
+		rargs := [][]byte{[]byte(name), append([]byte(dataNS+":"), raw...), cursor, []byte("count"), []byte(strconv.Itoa(count))}
+		if match != "" {
+			rargs = append(rargs, []byte("match"), []byte(match))
+		}
+		vs := n.read(rargs)
 		v := one(vs)
 		if v.k != 'a' || len(v.arr) != 2 || v.arr[0].k != 'b' || v.arr[1].k != 'a' {
 			return nil, nil, canonRV(v)
@@ -201,8 +217,21 @@ func newScan(c *Ctx) func(string) string {
 		}
 		return out
 	}
-	return func(line string) string {
+	matchPrefix := ""
+	var exec func(line string) string
+	exec = func(line string) string {
 		f := strings.Fields(line)
+		if (f[0] == "fullm" || f[0] == "cfullm") && len(f) == 7 {
+			// with MATCH <prefix>* : exactly the matching subset (oracle-only, the Lean paging model has no MATCH)
+			matchPrefix = string(unhex(f[6]))
+			if f[0] == "fullm" {
+				match = string(unhex(f[2])) + ":" + matchPrefix + "*"
+			} else {
+				match = matchPrefix + "*"
+			}
+			defer func() { match, matchPrefix = "", "" }()
+			return exec(strings.Join(append([]string{f[0][:len(f[0])-1]}, f[1:6]...), " "))
+		}
 		if f[0] == "open" {
 			closeN()
 			var err error
@@ -290,12 +319,21 @@ func newScan(c *Ctx) func(string) string {
 			}
 			// ORACLE: every key of the addressed table and type beyond the start cursor exactly once, in order, nothing else
 			want := expect(pop[f[1]], string(table)+":", unhex(f[3]), rev, true)
+			if match != "" {
+				var w2 []string
+				for _, k := range want {
+					if strings.HasPrefix(k, string(table)+":"+matchPrefix) {
+						w2 = append(w2, k)
+					}
+				}
+				want = w2
+			}
 			got := make([]string, len(all))
 			for i, k := range all {
 				got[i] = string(k)
 			}
 			if strings.Join(got, "\x01") != strings.Join(want, "\x01") {
-				c.Violation("scan-wrong-result:"+f[1]+fmt.Sprintf(":rev=%v", rev), fmt.Sprintf("%s got %q want %q", line, got, want))
+				c.Violation("scan-wrong-result:"+f[1]+fmt.Sprintf(":rev=%v", rev)+map[bool]string{true: ":match", false: ""}[match != ""], fmt.Sprintf("%s match=%q got %q want %q", line, match, got, want))
 			}
 			return "keys=" + hexList(all) + " rounds=" + strconv.Itoa(rounds)
 		case "cscan":
@@ -328,15 +366,25 @@ func newScan(c *Ctx) func(string) string {
 				}
 			}
 			want := expect(coll[f[1]+" "+f[2]], "", unhex(f[3]), rev, false)
+			if match != "" {
+				var w2 []string
+				for _, k := range want {
+					if strings.HasPrefix(k, matchPrefix) {
+						w2 = append(w2, k)
+					}
+				}
+				want = w2
+			}
 			got := make([]string, len(all))
 			for i, k := range all {
 				got[i] = string(k)
 			}
 			if strings.Join(got, "\x01") != strings.Join(want, "\x01") {
-				c.Violation("scan-wrong-result:coll-"+f[1]+fmt.Sprintf(":rev=%v", rev), fmt.Sprintf("%s got %q want %q", line, got, want))
+				c.Violation("scan-wrong-result:coll-"+f[1]+fmt.Sprintf(":rev=%v", rev)+map[bool]string{true: ":match", false: ""}[match != ""], fmt.Sprintf("%s match=%q got %q want %q", line, match, got, want))
 			}
 			return "items=" + hexList(all) + " rounds=" + strconv.Itoa(rounds)
 		}
 		return "bad-op"
 	}
+	return exec
 }
